@@ -1,9 +1,9 @@
 package main
 
 import (
-	"reflect"
 	"fmt"
 	"math/rand"
+	"reflect"
 	"strings"
 	"unicode/utf8"
 
